@@ -30,7 +30,7 @@ CASE_TIMEOUT = {'quick': 120, 'thorough': 300}
 
 
 # appended to RULE in the evidence (vlib/runner.py)
-RULE_ADDENDUM = 'Added in round 5: a bridge pipe replaced by a CLOSED TCV/PRV/FCV that a time control or rule on its setting brings back (30 % of the cases).'
+RULE_ADDENDUM = 'Added in round 5: a bridge pipe replaced by a CLOSED TCV/PRV/FCV that a time control or rule on its setting brings back (30 % of the cases). Round 6: in every fourth case the judged run is the second run_sim of one simulator object after reset_initial_values().'
 
 def n_cases(tier):
     return 200 if tier == 'quick' else 3000
